@@ -1,7 +1,6 @@
 package c18
 
 import (
-	"bytes"
 	"context"
 	"crypto/hmac"
 	"crypto/sha256"
@@ -696,6 +695,45 @@ func dRun(t *testing.T, u dUniverse, a dMember, b *dMember, port int, dir string
 	return res
 }
 
+// dRaceRun: the free-running side pass (-race). Unlike dRun the dispatcher is STARTED before the reload, as in
+// production, and ingress requests arrive while the reload runs; nothing is judged here but what the race detector sees.
+func dRaceRun(t *testing.T, u dUniverse, a, b dMember, port int, dir string) {
+	synctest.Test(t, func(t *testing.T) {
+		os.RemoveAll(dir)
+		st := &dStore{Store: queue.NewMemoryStore(), inflight: map[string]int{}}
+		for _, k := range u.backlog {
+			id := "backlog|" + k[0] + "|" + k[1]
+			st.Enqueue(queue.Envelope{ID: id, Route: k[0], Target: k[1], Payload: []byte(id)})
+		}
+		ap, err := app.VerifBoot(app.VerifBootOptions{Dir: dir, ConfigText: a.cfg.text(port), Store: st})
+		if err != nil {
+			t.Fatalf("boot %s: %v", a.name, err)
+		}
+		defer ap.Shutdown()
+		d := ap.VerifDispatcher(&http.Client{Transport: &dTransport{t0: time.Now()}})
+		if hd, ok := d.Deliverer.(*dispatcher.HTTPDeliverer); ok {
+			hd.Resolver = dResolver{}
+		}
+		d.Start()
+		os.WriteFile(ap.ConfigPath, []byte(b.cfg.text(port)), 0o644)
+		var wg sync.WaitGroup
+		wg.Add(2)
+		go func() { defer wg.Done(); ap.Reload("race") }()
+		go func() {
+			defer wg.Done()
+			for _, p := range u.paths {
+				rq := httptest.NewRequest("POST", p, strings.NewReader("in|"+p))
+				rq.RemoteAddr = "10.1.2.3:5555"
+				rq.Header.Set("Authorization", "Basic "+base64.StdEncoding.EncodeToString([]byte("u:p")))
+				ap.Ingress.ServeHTTP(httptest.NewRecorder(), rq)
+			}
+		}()
+		wg.Wait()
+		time.Sleep(20 * time.Second)
+		d.Drain(10 * time.Minute)
+	})
+}
+
 func dDiff(got, want []string) string {
 	inGot, inWant := map[string]int{}, map[string]int{}
 	for _, l := range got {
@@ -915,5 +953,3 @@ func dispatchDiffPart(r *runner.Run, t *testing.T) {
 	}
 	r.Sample(map[string]any{"part": "dispatch-diff", "pair": fam[pairs[0].a].name + " -> " + fam[pairs[0].b].name, "reference_lines": refs[0].obs[:min(8, len(refs[0].obs))]})
 }
-
-var _ = bytes.Equal
